@@ -2,7 +2,7 @@
 # Whole-tree benign transformations (behaviour unchanged) must leave every check at exit 0:  selftest/benign_sweep.sh
 # Each transformation is applied to a scratch copy of /repo/src under $TMPDIR (removed afterwards).
 status=0
-for kinds in "alpha" "flip" "aug" "invert" "logging" "ifexp" "unelse" "ctor" "chain" "noteq" "alpha flip aug invert" "alpha flip aug invert ifexp unelse ctor chain noteq"; do
+for kinds in "alpha" "flip" "aug" "invert" "logging" "ifexp" "unelse" "ctor" "chain" "noteq" "alpha flip aug invert" "alpha flip aug invert ifexp unelse ctor chain noteq" "invert unelse" "flip invert unelse" "alpha invert unelse" "aug invert unelse"; do
   root=$(mktemp -d /tmp/rp2-verif-benign-XXXXXX)
   cp -r /repo/src "$root/src"; cp /repo/setup.cfg "$root/"
   for k in $kinds; do
